@@ -423,8 +423,10 @@ def main(argv=None):
         log(line)
     harness_error = None
     with cf.ProcessPoolExecutor(max_workers=NPROC, mp_context=ctx, initializer=_worker_init) as pool:
-        for h in hs:
-            agg = explore_parallel(pool, pid, tier, h, deadline, seed, log)
+        for hi, h in enumerate(hs):
+            # the remaining budget is shared equally among the harnesses still to run
+            h_deadline = time.time() + max(5.0, (deadline - time.time()) / (len(hs) - hi))
+            agg = explore_parallel(pool, pid, tier, h, h_deadline, seed, log)
             aggs[h.name] = agg
             for kid, vals in agg.known.items():
                 kf = [k for k in known if k["id"] == kid][0]
